@@ -26,6 +26,8 @@ where
     db: DB,
     cache_db: DB,
     cache: HashMap<K, C>,
+    #[cfg(feature = "verif")]
+    verif_name: String,
 
     _phantom: std::marker::PhantomData<V>,
 }
@@ -55,6 +57,8 @@ where
             db,
             cache_db,
             cache,
+            #[cfg(feature = "verif")]
+            verif_name: name.to_string(),
             _phantom: std::marker::PhantomData,
         })
     }
@@ -159,6 +163,13 @@ where
     /// key: K - the key to set the value for
     /// value: V - the value to set
     pub fn set(&mut self, block_number: u64, key: &K, value: V) -> Result<(), Box<dyn Error>> {
+        #[cfg(feature = "verif")]
+        crate::verif_hooks::record(crate::verif_hooks::Ev::VSet {
+            table: self.verif_name.clone(),
+            stamp: block_number,
+            key: key.encode_vec(),
+            val: Some(value.encode_vec()),
+        });
         let cache = self.retrieve_cache(&key)?;
         cache.set(block_number, value);
         Ok(())
@@ -170,6 +181,13 @@ where
     /// block_number: U256 - the block number to unset the value for
     /// key: K - the key to unset the value for
     pub fn unset(&mut self, block_number: u64, key: &K) -> Result<(), Box<dyn Error>> {
+        #[cfg(feature = "verif")]
+        crate::verif_hooks::record(crate::verif_hooks::Ev::VSet {
+            table: self.verif_name.clone(),
+            stamp: block_number,
+            key: key.encode_vec(),
+            val: None,
+        });
         let cache = self.retrieve_cache(&key)?;
         cache.unset(block_number);
         Ok(())
@@ -181,18 +199,51 @@ where
     ///
     /// block_number: U256 - the block number to commit at
     pub fn commit(&mut self, block_number: u64) -> Result<(), Box<dyn Error>> {
+        #[cfg(feature = "verif")]
+        crate::verif_hooks::record(crate::verif_hooks::Ev::VCommit {
+            table: self.verif_name.clone(),
+            block: block_number,
+        });
         for (key, cache) in self.cache.iter() {
             let key_bytes = key.encode_vec();
             let cache_bytes = cache.encode_vec();
             if cache.is_old(block_number) {
+                #[cfg(feature = "verif")]
+                crate::verif_hooks::before_persistent_write(crate::verif_hooks::Ev::VPut {
+                    table: self.verif_name.clone(),
+                    hist: true,
+                    key: key_bytes.clone(),
+                    val: None,
+                })?;
                 self.cache_db.delete(&key_bytes)?;
             } else {
+                #[cfg(feature = "verif")]
+                crate::verif_hooks::before_persistent_write(crate::verif_hooks::Ev::VPut {
+                    table: self.verif_name.clone(),
+                    hist: true,
+                    key: key_bytes.clone(),
+                    val: Some(cache_bytes.clone()),
+                })?;
                 self.cache_db.put(&key_bytes, &cache_bytes)?;
             }
 
             if let Some(value) = cache.latest() {
+                #[cfg(feature = "verif")]
+                crate::verif_hooks::before_persistent_write(crate::verif_hooks::Ev::VPut {
+                    table: self.verif_name.clone(),
+                    hist: false,
+                    key: key_bytes.clone(),
+                    val: Some(value.encode_vec()),
+                })?;
                 self.db.put(&key_bytes, &value.encode_vec())?;
             } else {
+                #[cfg(feature = "verif")]
+                crate::verif_hooks::before_persistent_write(crate::verif_hooks::Ev::VPut {
+                    table: self.verif_name.clone(),
+                    hist: false,
+                    key: key_bytes.clone(),
+                    val: None,
+                })?;
                 self.db.delete(&key_bytes)?;
             }
         }
@@ -217,6 +268,11 @@ where
     ///
     /// latest_valid_block_number: U256 - the latest valid block number
     pub fn reorg(&mut self, latest_valid_block_number: u64) -> Result<(), Box<dyn Error>> {
+        #[cfg(feature = "verif")]
+        crate::verif_hooks::record(crate::verif_hooks::Ev::VReorg {
+            table: self.verif_name.clone(),
+            block: latest_valid_block_number,
+        });
         let mut keys = HashSet::new();
         {
             for kv_pair in self.cache_db.full_iterator(IteratorMode::Start) {
@@ -240,6 +296,10 @@ where
     /// It clears the cache, make sure to call commit before clearing the cache to write the data to the database
     /// Otherwise the data will be lost
     pub fn clear_cache(&mut self) {
+        #[cfg(feature = "verif")]
+        crate::verif_hooks::record(crate::verif_hooks::Ev::VClear {
+            table: self.verif_name.clone(),
+        });
         self.cache.clear();
     }
 
